@@ -183,6 +183,17 @@ def correspond(ctx):
             s2 = [rng.choice(ALPHABET) for _ in range(rng.randint(0, 3))] + [rng.choice(bad)] + \
                  [rng.choice(ALPHABET + bad) for _ in range(rng.randint(1, 5))]
             seqs2.append(s2)
+        # several DIFFERENT tokens on one ready service, over one or several connections, with the (client-chosen, unchecked)
+        # digest field equal for all of them, missing, or the token's own digest: every result must be Search(accepted index, the
+        # token of THIS request)
+        for _ in range(ctx.pick(40, 300)):
+            e = rng.choice([1, 2])
+            s2 = [("config", rng.choice([1, 2])), ("upload", e)]
+            for _ in range(rng.randint(2, 6)):
+                if rng.random() < 0.25:
+                    s2.append(("reconnect",))
+                s2.append(("search", rng.choice([1, 2]), rng.choice(["same", "same", "none", "own"])))
+            seqs2.append(s2)
         waits2 = [[list(o) for o in reference(s + PROBE)] for s in seqs2]
         fe.teardown(); fe.setup(cleanup_delay=0.0)
         fx2 = srvproto.Fixture()
@@ -198,11 +209,88 @@ def correspond(ctx):
                 if not any(v["signature"] == "trace differs from the 3-state reference machine" for v in res.violations):
                     c2 = " ; ".join(" ".join(map(str, ev)) for ev in s2)
                     res.violations.append({"signature": "trace differs from the 3-state reference machine",
-                                           "what": f"events [{c2}] + probe (config J / upload J = a configuration / an index the handler starts to store and cannot): observed {g} expected {ref}",
+                                           "what": f"events [{c2}] + probe (config J / upload J = a configuration / an index the handler starts to store and cannot; search <token> <digest mode>): observed {g} expected {ref}",
                                            "input": {"events": [list(e) for e in s2]}})
+        # requests sent BACK TO BACK (a client need not wait for a reply) with indexes of more than 1 MiB (handlers that hand
+        # large writes to another thread stay in the old state meanwhile): the server processes them in order, so the
+        # outcome is the reference machine's - judged by what a later connection is told and answered
+        fe.teardown(); fe.setup(cleanup_delay=0.0)
+        asyncio.run(pipelined_big(res, srvproto.Fixture()))
     finally:
         fe.teardown()
     return res
+
+
+async def pipelined_big(res, fx):
+    import pickle
+    import frontend_env as fe
+    import schemes
+    loader = schemes.load_sse_module("CJJ14.PiBas")
+    sch = loader.SSEScheme(fx.c[1])
+    key = sch.KeyGen()
+    big = {}
+    for n, first in ((1, b"\x11"), (2, b"\x22")):
+        db = {fx.kw: [first * 64], **{b"w%05d" % i: [i.to_bytes(64, "big")] for i in range(1, 9500)}}
+        big[n] = sch.EDBSetup(key, db).serialize()
+    tok = sch.TokenGen(key, fx.kw).serialize()
+    cfgobj = loader.SSEConfig(fx.c[1])
+    answers = {sch.Search(loader.SSEEncryptedDatabase.deserialize(big[n], cfgobj), loader.SSEToken.deserialize(tok, cfgobj)).serialize(): n
+               for n in big}
+    scenarios = [("upload(E1) upload(E2) back to back", [("upload_edb", big[1]), ("upload_edb", big[2])], 1),
+                 ("upload(E2) upload(E1) back to back", [("upload_edb", big[2]), ("upload_edb", big[1])], 2),
+                 ("upload(E1) search(t) back to back", [("upload_edb", big[1]), ("token", tok)], 1)]
+    async with fe.Server() as srv:
+        for si, (name, msgs, expect) in enumerate(scenarios):
+            sid = f"pipelined{si}"
+            c = fe.RawConn(srv.port, sid)
+            await c.open()                                     # returns the init echo
+            await c.send("config", pickle.dumps(fx.c[1]))
+            await c.recv(10)
+            for mt, content in msgs:                           # no waiting in between
+                await c.send(mt, content, **({"token_digest": b"d"} if mt == "token" else {}))
+            seen = []
+            for _ in range(len(msgs)):
+                m = await c.recv(20)
+                seen.append(m)
+                if isinstance(m, tuple):
+                    break
+            await c.close()
+            await srvproto_wait_dereg(sid)
+            # what a later connection is told and answered
+            c2 = fe.RawConn(srv.port, sid)
+            first = await c2.open()
+            import srvproto
+            state = None
+            for n_try in range(6):
+                o = srvproto.parse_msg(fx, first if n_try == 0 else await c2.recv(10))
+                if o.startswith("init:"):
+                    state = int(o[5:]) if o[5:].isdigit() else o[5:]
+                    break
+                if o != "control":
+                    break
+            await c2.send("token", tok, token_digest=b"d2")
+            r = await c2.recv(20)
+            while isinstance(r, dict) and r.get("type") == "control":
+                r = await c2.recv(20)
+            await c2.close()
+            got = answers.get(r.get("content")) if isinstance(r, dict) and r.get("type") == "result" else None
+            res.evaluations += 1
+            res.count("pipelined large-index scenarios")
+            direct = None
+            if msgs[-1][0] == "token":
+                direct = [answers.get(m.get("content")) for m in seen if isinstance(m, dict) and m.get("type") == "result"]
+            if state != 2 or got != expect or (direct is not None and direct not in ([expect], [])):
+                if not any(v["signature"] == "pipelined requests: outcome differs from the 3-state reference machine" for v in res.violations):
+                    res.violations.append({"signature": "pipelined requests: outcome differs from the 3-state reference machine",
+                                           "what": f"config, then {name} (indexes of {len(big[1]) // 1024} KiB): a later connection is told state {state} and "
+                                                   f"its search is answered from index {got}; the first accepted index is E{expect}"
+                                                   + (f"; the pipelined search was answered from {direct}" if direct is not None else ""),
+                                           "input": {"scenario": name, "index_bytes": len(big[1])}})
+
+
+async def srvproto_wait_dereg(sid):
+    import srvproto
+    await srvproto.wait_deregistered(sid)
 
 
 def search(ctx, broken, res0):
